@@ -55,8 +55,9 @@ PROPS["C20"] = {
     "skeleton_fns": PORT,
     "lean_modules": ["GoSup.Props.C20"],
     "theorems": [
-        "GoSup.Props.C20.vp_empty",
-        
+        "GoSup.Props.C20.vp_empty", "GoSup.Props.C20.vp_accept_port", "GoSup.Props.C20.vp_accept_host_port",
+        "GoSup.Props.C20.vp_accept_bracketed", "GoSup.Props.C20.vp_reject_out_of_range", "GoSup.Props.C20.vp_reject_negative",
+        "GoSup.Props.C20.vp_roundtrip", "GoSup.Props.C20.original_code_breaks_roundtrip",
     ],
     "ties": [],
     "legs": [{"name": "port", "cmd": "port"}],
